@@ -48,19 +48,33 @@ CLAIMED = {
     "C18": ("4.C18", "Extract action (copy overwrites, links refuse, verification before any effect) with CheckedNeverWrong "
             "checked by TLC over damage x entry point x destination state; recorded extractions with destinations observed "
             "in the projection validated by TLC."),
+    "C06": ("4.C06", "IndexFormat.tla: token-level bucket file with every damage class; Contained (intact records stay "
+            "effective, in order; nothing unappended is returned) checked exhaustively by TLC (the deviant stop-at-bad-UTF-8 "
+            "reader violates it in <1 s); real buckets are cut at every length, bit-flipped, spliced with garbage / NUL / "
+            "invalid UTF-8 lines, the reference lexer classifies the bytes and TLC derives what sync and async lookups and "
+            "listings must return."),
+    "C12": ("4.C12", "The contract is deterministic (up to timestamp interval and listing order), so equivalence follows from "
+            "each flavour's traces being accepted by TLC against the same specification; in addition the same programs are "
+            "run in three pure flavours and a mixed form and their per-step results and final projections compared."),
+    "C17": ("4.C17", "Layout.tla states the format at byte level; TraceLayout.tla has TLC evaluate IsRecordLine/BucketPath/"
+            "ContentPath on the bytes each call appended and on every new content path, with digests from hashlib; exact "
+            "line-by-line agreement of the reference reader's projection with the ghost state; caches produced by the "
+            "independent writer are read by the library in all lanes and compared with the specification."),
+    "C19": ("4.C19", "LinkOneShot/OpenLinker/LinkerRead/LinkerCommit in the contract; TargetsUntouched and CheckedNeverWrong "
+            "checked by TLC; recorded link_to programs (absolute/relative targets from several working directories, partial "
+            "reads, declared size/integrity, targets changed/removed/replaced, pre-existing addresses) validated with the "
+            "content symlink and the target bytes in the projection."),
+    "C20": ("4.C20", "Totality: every contract action yields Ok or Err; the trace specifications have no action with a panic, "
+            "hang or dead-process outcome, so TLC rejects any trace containing one; every call of a cross-section of all "
+            "programs plus hostile directory states runs under catch_unwind and a 30 s watchdog."),
 }
 
 NOT_YET = {
     "C03": "system-call level check (lock-step tracer + CacacheFS.tla) not built yet",
     "C04": "system-call level check (lock-step tracer + CacacheFS.tla) not built yet",
-    "C06": "check under construction",
     "C07": "system-call level check (lock-step tracer + CacacheFS.tla) not built yet",
-    "C12": "check under construction",
     "C13": "system-call level check (lock-step tracer + CacacheFS.tla) not built yet",
     "C15": "system-call level check (lock-step tracer) not built yet",
-    "C17": "check under construction",
-    "C19": "check under construction",
-    "C20": "check under construction",
 }
 
 
